@@ -166,6 +166,25 @@ def run_unit(args):
                     hit = [b for b in bad if any(b == o["short"] or o["short"].startswith(b) for o in undecided)]
                 if hit and len(st["violations"]) < 3:
                     st["violations"].append({"values": contract.jsonable(values), "violated": hit, "what": what})
+        pure_model_defects = [m_ for m_ in cf["mismatches"] if not m_.get("violated") and not m_.get("violated_other")]
+        if pure_model_defects and not undecided:
+            # the model disagrees with the real code on this tree although the real code satisfies the contract
+            # there: the model is wrong about this code (a change brought a construct the model misreads).
+            # Nothing proved or refuted with it can be trusted: the case is undecided and the contract is
+            # evaluated on the real code over the grid instead
+            out["model_unreliable"] = pure_model_defects[0]["what"][:300]
+            excluded_regions = {r_ for rs in exclude.values() if isinstance(rs, list) for r_ in rs}
+            for values in grid:
+                if excluded_regions & set(case.concrete_regions(values)):
+                    continue
+                bad, what = replay.replay(case, values)
+                if bad is None:
+                    continue
+                st["cases"] += 1
+                hit = [b for b in bad if prop in case.props_of(_base(b))]
+                if hit and len(st["violations"]) < 3:
+                    st["violations"].append({"values": contract.jsonable(values), "violated": hit, "what": what})
+            undecided = [{"short": "model-unreliable", "kind": "error", "status": "undecided"}]
         out["conformance"] = cf
         out["standin"] = st if undecided else None
     except Exception:  # noqa: BLE001
@@ -300,10 +319,15 @@ def check_property(prop, tier="quick", seed=0):
                 violations += 1
         if r["error"]:
             checker_errors.append("%s: %s" % (r["case"], r["error"].strip().splitlines()[-1]))
+        unreliable = r.get("model_unreliable")
+        if unreliable:
+            lines.append("  note: %s: the model disagrees with the real code on this tree (%s) although the real code satisfies the contract there; obligations of this case are undecided, the contract was evaluated on the real code over the grid instead" % (r["case"], unreliable[:160]))
         cf = r.get("conformance")
         if cf:
             conf_cases += cf["cases"]
             for mm in cf["mismatches"]:
+                if unreliable and not mm.get("violated") and not mm.get("violated_other"):
+                    continue
                 if mm.get("violated"):
                     path = write_replay(prop, case, r["case"] + ":conformance." + "+".join(mm["violated"]), mm["values"], {"real_code": mm.get("real", ""), "confirmed": True, "found_by": "conformance run (real code on the case's grid): " + mm["what"][:200]})
                     lines.append("VIOLATION property=%s replay=%s" % (prop, path))
@@ -317,6 +341,10 @@ def check_property(prop, tier="quick", seed=0):
                     continue
                 checker_errors.append("conformance mismatch (model vs numpy) in %s on %s: %s" % (r["case"], mm["values"], mm["what"]))
         for o in r["obligations"]:
+            if unreliable and o["status"] in ("refuted", "discharged"):
+                o = dict(o)
+                o["detail"] = "model unreliable on this tree (was %s): %s" % (o["status"], (o.get("detail") or "")[:200])
+                o["status"] = "undecided"
             all_obs.append(o)
             if o["status"] == "refuted":
                 values = contract.unjson(o["model"]) if o["model"] else None
